@@ -6,6 +6,12 @@ the backwards loop, uniqueness of the origin, and the history alignment.
 import Scalibr.Spec.Trace
 namespace Scalibr.Trace
 
+/-- model-side helper: membership in an optional package list -/
+def has (v : Option (List Pkg)) (p : Pkg) : Bool :=
+  match v with
+  | some ps => ps.contains p
+  | none => false
+
 theorem viewAt_succ (h : History) (i : Nat) (hi : i + 1 < h.length) :
     viewAt h (i+1) = applyOp (viewAt h i) h[i+1] := by
   unfold viewAt
@@ -16,6 +22,48 @@ theorem viewAt_zero (h : History) (h0 : 0 < h.length) : viewAt h 0 = applyOp non
   unfold viewAt
   match h, h0 with
   | x :: xs, _ => simp
+
+theorem viewAt_beyond (h : History) (i : Nat) (hi : h.length ≤ i + 1) : viewAt h (i+1) = viewAt h i := by
+  unfold viewAt
+  rw [List.take_of_length_le (by omega), List.take_of_length_le (by omega)]
+
+/-- The specification's downward scan and the model's upward fold describe the same views. -/
+theorem lastTouch_view (h : History) : ∀ i,
+    viewAt h i = (match lastTouch h i with
+      | some (.write ps) => some ps
+      | some (.link ps) => some ps
+      | _ => none)
+  | 0 => by
+    unfold lastTouch
+    by_cases h0 : 0 < h.length
+    · rw [viewAt_zero h h0]
+      have hget : h[0]? = some h[0] := by simp [h0]
+      rw [hget]
+      cases h[0] <;> simp [applyOp]
+    · have : h = [] := by cases h with | nil => rfl | cons a t => simp at h0
+      subst this
+      simp [viewAt]
+  | i+1 => by
+    unfold lastTouch
+    by_cases hi : i + 1 < h.length
+    · rw [viewAt_succ h i hi]
+      have hget : h[i+1]? = some h[i+1] := by simp [hi]
+      rw [hget]
+      cases hop : h[i+1] with
+      | keep => simp only [applyOp]; exact lastTouch_view h i
+      | write ps => simp [applyOp]
+      | link ps => simp [applyOp]
+      | delete => simp [applyOp]
+    · have hnone : h[i+1]? = none := by simp; omega
+      rw [hnone, viewAt_beyond h i (by omega)]
+      exact lastTouch_view h i
+
+theorem present_eq (h : History) (i : Nat) (p : Pkg) : present h i p = has (viewAt h i) p := by
+  unfold present
+  rw [lastTouch_view h i]
+  cases lastTouch h i with
+  | none => rfl
+  | some op => cases op <;> rfl
 
 /-- a layer whose own diff lacks the file, in whose view the file exists, is a `keep` -/
 theorem skipped_is_keep (h : History) (i : Nat) (hi : i < h.length) (hnd : inDiff h i = false)
@@ -203,7 +251,7 @@ theorem loop_isOrigin (img : Nat → History) (cancelAt : Option Nat) (f : Nat) 
         apply ih i s' (Nat.le_refl _) (by omega) hc'
         · intro j h1 h2
           by_cases hjl : j < last
-          · unfold present; rw [hconst j h1 hjl, has_getD]; exact hin
+          · rw [present_eq, hconst j h1 hjl, has_getD]; exact hin
           · exact hP j (by omega) h2
         · intro k h1 h2; omega
       · simp only [hin, Bool.false_eq_true, if_false]
@@ -218,7 +266,7 @@ theorem loop_isOrigin (img : Nat → History) (cancelAt : Option Nat) (f : Nat) 
           · rw [Nat.max_eq_right h1]; omega
           · rw [Nat.max_eq_left h1]; exact hlt'
         have hj : present (img f) (max L' i) p = true := hpres (max L' i) (Nat.le_max_left _ _) (by omega)
-        unfold present at hj
+        rw [present_eq] at hj
         rw [hconst (max L' i) (Nat.le_max_right _ _) hmax, has_getD] at hj
         exact hin hj
     · rw [hf]
@@ -238,7 +286,7 @@ theorem traceC_traced (img : Nat → History) (cancelAt : Option Nat) (f : Nat) 
     Traced img cancelAt f p (traceC (img f) cancelAt f p s) := by
   have hn : 0 < (img f).length := by
     cases hh : img f with
-    | nil => rw [hh] at hp; simp [present, viewAt, has] at hp
+    | nil => rw [hh] at hp; simp [present_eq, viewAt, has] at hp
     | cons a t => simp
   exact loop_isOrigin img cancelAt f p ((img f).length - 1) ((img f).length - 1) s (Nat.le_refl _) (by omega) hc
     (fun j h1 h2 => by
@@ -276,16 +324,16 @@ theorem length_insertKeep (h : History) (k : Nat) (hk : k ≤ h.length) : (inser
 
 theorem present_insertKeep_lt (h : History) (p : Pkg) (k j : Nat) (hk : k ≤ h.length) (hj : j < k) :
     present (insertKeep h k) j p = present h j p := by
-  unfold present; rw [viewAt_insertKeep h k hk j]; simp [hj]
+  rw [present_eq, present_eq, viewAt_insertKeep h k hk j]; simp [hj]
 
 theorem present_insertKeep_ge (h : History) (p : Pkg) (k j : Nat) (hk : k ≤ h.length) (hj : k ≤ j + 1) :
     present (insertKeep h k) (j+1) p = present h j p := by
-  unfold present; rw [viewAt_insertKeep h k hk (j+1)]
+  rw [present_eq, present_eq, viewAt_insertKeep h k hk (j+1)]
   have : ¬ (j + 1 < k) := by omega
   simp [this]
 
 theorem present_insertKeep_zero (h : History) (p : Pkg) : present (insertKeep h 0) 0 p = false := by
-  unfold present; rw [viewAt_insertKeep h 0 (Nat.zero_le _) 0]; simp [has]
+  rw [present_eq, viewAt_insertKeep h 0 (Nat.zero_le _) 0]; simp [has]
 
 theorem isOrigin_insertKeep (h : History) (p : Pkg) (k L : Nat) (hk : k ≤ h.length) (ho : IsOrigin h p L) :
     IsOrigin (insertKeep h k) p (shift k L) := by
